@@ -465,6 +465,173 @@ Proof.
       * apply (H3 j); [lia|lia|exact He].
 Qed.
 
+(* ------------------------------------------------------------------ the walk, exactly
+   [all_visits n st]: every descendant of n in document order (a node before its children, children left to right), each
+   with its parent, index and absolute position, n's content starting at st.  With a callback that never prunes,
+   nodes_between reports EXACTLY the members of that list that overlap the range, in that order. *)
+Fixpoint all_visits (n : node) (st : nat) {struct n} : list visit :=
+  match n with
+  | Text _ _ => []
+  | Elem _ _ _ cs =>
+    (fix go (l : list node) (i pos : nat) {struct l} : list visit :=
+       match l with
+       | [] => []
+       | c :: r => {| v_node := c; v_pos := st + pos; v_parent := Some n; v_index := i |}
+                   :: all_visits c (st + pos + 1) ++ go r (S i) (pos + nsize c)
+       end) cs 0 0
+  end.
+
+Fixpoint av_go (n : node) (st : nat) (l : list node) (i pos : nat) {struct l} : list visit :=
+  match l with
+  | [] => []
+  | c :: r => {| v_node := c; v_pos := st + pos; v_parent := Some n; v_index := i |}
+              :: all_visits c (st + pos + 1) ++ av_go n st r (S i) (pos + nsize c)
+  end.
+
+Lemma av_elem ty a m cs st : all_visits (Elem ty a m cs) st = av_go (Elem ty a m cs) st cs 0 0.
+Proof.
+  cbn [all_visits]. match goal with |- ?F cs 0 0 = _ => set (go := F) end.
+  assert (G : forall l i pos, go l i pos = av_go (Elem ty a m cs) st l i pos).
+  { induction l as [|c r IHl]; intros i pos; [reflexivity|]. cbn [av_go]. rewrite <- IHl. reflexivity. }
+  apply G.
+Qed.
+
+(* well-formed for walking: leaf-typed nodes have no children, text nodes are not empty *)
+Fixpoint wfw (n : node) : Prop :=
+  match n with
+  | Text t _ => 0 < text_length t
+  | Elem ty _ _ cs =>
+    (is_leaf_ty s ty = true -> cs = []) /\
+    (fix all (l : list node) : Prop := match l with [] => True | c :: r => wfw c /\ all r end) cs
+  end.
+
+Lemma wfw_child ty a m cs c : wfw (Elem ty a m cs) -> In c cs -> wfw c.
+Proof.
+  cbn [wfw]. intros (_ & H) Hin. induction cs as [|x cs IH]; [destruct Hin|].
+  destruct H as (Hx & Hr). destruct Hin as [<-|Hin]; [exact Hx|apply IH; assumption].
+Qed.
+
+Lemma wfw_size n : wfw n -> 0 < nsize n.
+Proof.
+  destruct n as [t m|ty a m cs]; cbn [wfw]; [intros H; cbn [node_size]; exact H|]. intros _.
+  pose proof (node_size_elem s ty a m cs) as Hs. destruct (is_leaf_ty s ty); lia.
+Qed.
+
+Lemma wfw_content_size ty a m cs : wfw (Elem ty a m cs) -> cs <> [] -> fsize cs + 2 <= nsize (Elem ty a m cs).
+Proof.
+  intros (Hz & _) Hne. pose proof (node_size_elem s ty a m cs) as Hs. destruct (is_leaf_ty s ty); [|lia].
+  exfalso. apply Hne. apply Hz. reflexivity.
+Qed.
+
+Definition overlap (F T : nat) (v : visit) : bool := (v_pos v <? T) && (F <? v_pos v + nsize (v_node v)).
+
+(* everything listed for n lies inside n's content *)
+Lemma all_visits_within : forall n st, wfw n ->
+  Forall (fun v => st <= v_pos v /\ v_pos v + nsize (v_node v) <= st + fsize (node_content n)) (all_visits n st).
+Proof.
+  induction n as [t m|ty a m cs IH] using node_ind2; intros st Hw; [constructor|]. rewrite av_elem. cbn [node_content].
+  assert (G : forall l pre i pos, cs = pre ++ l -> pos = fsize pre ->
+              Forall (fun v => st + pos <= v_pos v /\ v_pos v + nsize (v_node v) <= st + pos + fsize l) (av_go (Elem ty a m cs) st l i pos)).
+  { induction l as [|c r IHl]; intros pre i pos Ecs Hpos; [constructor|]. cbn [av_go frag_size].
+    assert (Hin : In c cs) by (rewrite Ecs; apply in_or_app; right; left; reflexivity).
+    pose proof (wfw_child _ _ _ _ _ Hw Hin) as Hwc.
+    constructor; [cbn [v_pos v_node]; lia|]. apply Forall_app. split.
+    - eapply Forall_impl; [|exact (IH c Hin (st + pos + 1) Hwc)]. intros v (H1 & H2). split; [lia|].
+      destruct c as [t' m'|cty ca cm ccs]; [cbn [node_content frag_size] in H2; pose proof (wfw_size _ Hwc); lia|].
+      cbn [node_content] in H2. destruct ccs as [|x xs]; [cbn [frag_size] in H2; pose proof (wfw_size _ Hwc); lia|].
+      pose proof (wfw_content_size _ _ _ _ Hwc ltac:(discriminate)). lia.
+    - eapply Forall_impl; [|exact (IHl (pre ++ [c]) (S i) (pos + nsize c) ltac:(rewrite <- app_assoc; exact Ecs) ltac:(rewrite frag_size_app; cbn [frag_size]; lia))].
+      intros v (H1 & H2). split; lia. }
+  eapply Forall_impl; [|exact (G cs [] 0 0 eq_refl eq_refl)]. intros v (H1 & H2). split; lia.
+Qed.
+
+Lemma av_go_within n st : forall l i pos, (forall c, In c l -> wfw c) ->
+  Forall (fun v => st + pos <= v_pos v /\ v_pos v + nsize (v_node v) <= st + pos + fsize l) (av_go n st l i pos).
+Proof.
+  induction l as [|c r IHl]; intros i pos Hall; [constructor|]. cbn [av_go frag_size].
+  pose proof (Hall c (or_introl eq_refl)) as Hwc.
+  constructor; [cbn [v_pos v_node]; lia|]. apply Forall_app. split.
+  - eapply Forall_impl; [|exact (all_visits_within c (st + pos + 1) Hwc)]. intros v (H1 & H2). split; [lia|].
+    destruct c as [t' m'|cty ca cm ccs]; [cbn [node_content frag_size] in H2; pose proof (wfw_size _ Hwc); lia|].
+    cbn [node_content] in H2. destruct ccs as [|x xs]; [cbn [frag_size] in H2; pose proof (wfw_size _ Hwc); lia|].
+    pose proof (wfw_content_size _ _ _ _ Hwc ltac:(discriminate)). lia.
+  - eapply Forall_impl; [|exact (IHl (S i) (pos + nsize c) (fun x Hx => Hall x (or_intror Hx)))].
+    intros v (H1 & H2). split; lia.
+Qed.
+
+Lemma filter_none {A} (f : A -> bool) l : Forall (fun x => f x = false) l -> filter f l = [].
+Proof. induction 1 as [|x l Hx _ IH]; [reflexivity|]. cbn [filter]. rewrite Hx. exact IH. Qed.
+
+Theorem walk_exact F T : forall n st, wfw n ->
+  walk n F T st = Ok (filter (overlap F T) (all_visits n st)).
+Proof.
+  induction n as [t m|ty a m cs IH] using node_ind2; intros st Hw; [reflexivity|].
+  rewrite nb_elem, av_elem. cbn [node_content]. set (n := Elem ty a m cs) in *.
+  set (from := F - st). set (to := Nat.min (fsize cs) (T - st)).
+  assert (G : forall l pre i pos, cs = pre ++ l -> pos = fsize pre ->
+              nb_go (fun _ => true) n from to st l i pos = Ok (filter (overlap F T) (av_go n st l i pos))).
+  { induction l as [|c r IHl]; intros pre i pos Ecs Hpos; cbn [nb_go av_go].
+    - assert (E : (pos <? to) = false).
+      { apply Nat.ltb_ge. unfold to. rewrite Ecs, app_nil_r, <- Hpos. lia. }
+      rewrite E. reflexivity.
+    - assert (Hin : In c cs) by (rewrite Ecs; apply in_or_app; right; left; reflexivity).
+      pose proof (wfw_child _ _ _ _ _ Hw Hin) as Hwc. pose proof (wfw_size _ Hwc) as Hsz.
+      assert (Hfit : pos + nsize c + fsize r = fsize cs) by (rewrite Ecs, frag_size_app, Hpos; cbn [frag_size]; lia).
+      pose proof (all_visits_within c (st + pos + 1) Hwc) as Hwithin.
+      assert (Hcin : fsize (node_content c) = 0 \/ fsize (node_content c) + 2 <= nsize c).
+      { destruct c as [t' m'|cty ca cm ccs]; [left; reflexivity|]. cbn [node_content]. destruct ccs as [|x xs]; [left; reflexivity|].
+        right. apply wfw_content_size; [exact Hwc|discriminate]. }
+      pose proof (IHl (pre ++ [c]) (S i) (pos + nsize c) ltac:(rewrite <- app_assoc; exact Ecs) ltac:(rewrite frag_size_app; cbn [frag_size]; lia)) as Hrest.
+      destruct (pos <? to) eqn:Ept.
+      + apply Nat.ltb_lt in Ept. assert (HposT : st + pos < T) by (unfold to in Ept; lia).
+        rewrite Hrest. cbn [bind]. cbn [filter].
+        assert (E1 : (st + pos <? T) = true) by (apply Nat.ltb_lt; exact HposT).
+        assert (Ev : overlap F T {| v_node := c; v_pos := st + pos; v_parent := Some n; v_index := i |} = (F <? st + pos + nsize c))
+          by (unfold overlap; cbn [v_pos v_node]; rewrite E1; reflexivity).
+        rewrite Ev. fold (overlap F T).
+        destruct (from <? pos + nsize c) eqn:Ef.
+        * apply Nat.ltb_lt in Ef. assert (E2 : (F <? st + pos + nsize c) = true) by (apply Nat.ltb_lt; unfold from in Ef; lia).
+          rewrite E2. rewrite filter_app. cbn [andb].
+          destruct (negb (fsize (node_content c) =? 0)) eqn:Ed.
+          -- apply negb_true_iff in Ed. apply Nat.eqb_neq in Ed. destruct Hcin as [Hc0|Hc2]; [lia|].
+             assert (Hargs : nodes_between_node s (fun _ => true) c (from - (pos + 1)) (Nat.min (fsize (node_content c)) (to - (pos + 1))) (st + pos + 1)
+                             = walk c F T (st + pos + 1)).
+             { f_equal; [unfold from; lia|unfold to; lia]. }
+             rewrite Hargs, (IH c Hin (st + pos + 1) Hwc). cbn [bind app]. reflexivity.
+          -- apply negb_false_iff in Ed. apply Nat.eqb_eq in Ed.
+             assert (Hnil : all_visits c (st + pos + 1) = []).
+             { destruct c as [t' m'|cty ca cm ccs]; [reflexivity|]. cbn [node_content] in Ed. destruct ccs as [|x xs]; [reflexivity|].
+               exfalso. pose proof (wfw_size x (wfw_child _ _ _ _ x Hwc (or_introl eq_refl))). cbn [frag_size] in Ed. lia. }
+             rewrite Hnil. cbn [bind filter app]. reflexivity.
+        * apply Nat.ltb_ge in Ef. assert (E2 : (F <? st + pos + nsize c) = false) by (apply Nat.ltb_ge; unfold from in Ef; lia).
+          rewrite E2. cbn [bind app]. rewrite filter_app.
+          rewrite (filter_none (overlap F T) (all_visits c (st + pos + 1))); [reflexivity|].
+          eapply Forall_impl; [|exact Hwithin]. intros v (H1 & H2). unfold overlap.
+          assert (E3 : (F <? v_pos v + nsize (v_node v)) = false).
+          { apply Nat.ltb_ge. apply Nat.ltb_ge in E2. destruct Hcin as [Hc0|Hc2]; lia. }
+          rewrite E3, andb_false_r. reflexivity.
+      + apply Nat.ltb_ge in Ept. assert (HposT : T <= st + pos) by (unfold to in Ept; lia).
+        symmetry. f_equal. apply filter_none. constructor.
+        * unfold overlap. cbn [v_pos]. assert (E : (st + pos <? T) = false) by (apply Nat.ltb_ge; exact HposT). rewrite E. reflexivity.
+        * apply Forall_app. split.
+          -- eapply Forall_impl; [|exact Hwithin]. intros v (H1 & _). unfold overlap.
+             assert (E : (v_pos v <? T) = false) by (apply Nat.ltb_ge; lia). rewrite E. reflexivity.
+          -- assert (Hr : Forall (fun v => st + (pos + nsize c) <= v_pos v) (av_go n st r (S i) (pos + nsize c))).
+             { eapply Forall_impl; [|apply (av_go_within n st r (S i) (pos + nsize c))].
+               - intros v (Hv & _). exact Hv.
+               - intros x Hx. apply (wfw_child _ _ _ _ x Hw). rewrite Ecs. apply in_or_app. right. right. exact Hx. }
+             eapply Forall_impl; [|exact Hr]. intros v Hv. cbv beta in Hv. unfold overlap.
+             assert (E : (v_pos v <? T) = false) by (apply Nat.ltb_ge; lia). rewrite E. reflexivity. }
+  exact (G cs [] 0 0 eq_refl eq_refl).
+Qed.
+
+Theorem nodes_between_exact doc F T :
+  wfw doc -> T <= fsize (node_content doc) ->
+  nodes_between_node s (fun _ => true) doc F T 0 = Ok (filter (overlap F T) (all_visits doc 0)).
+Proof.
+  intros Hw HT. rewrite <- (walk_exact F T doc 0 Hw). rewrite !Nat.sub_0_r, Nat.min_r by lia. reflexivity.
+Qed.
+
 (* the walk reports nodes in document order: positions never decrease *)
 Fixpoint Mono (vs : list visit) : Prop :=
   match vs with [] => True | v :: r => Forall (fun w => v_pos v <= v_pos w) r /\ Mono r end.
